@@ -2,10 +2,17 @@
    option, unit, list, prod, sumbool and comparison map to the OCaml types; N, Z, positive and nat
    stay inductive. *)
 From Coq Require Import Extraction ExtrOcamlBasic ZArith NArith.
-From LV Require Import Model.CheckedArith Model.QuerySpec.
+From LV Require Import Model.CheckedArith Model.QuerySpec Model.SortKernels Model.MergeKernels Model.EncodedCmp.
 Extraction Language OCaml.
 Separate Extraction
   BinInt.Z.add BinInt.Z.compare BinNat.N.add
   CheckedArith.perform_checked CheckedArith.checked_loop CheckedArith.eval_aexpr
   CheckedArith.sum_partition CheckedArith.combine_i64 CheckedArith.sum_tree
-  QuerySpec.valid QuerySpec.eval_query QuerySpec.eval_expr.
+  QuerySpec.valid QuerySpec.eval_query QuerySpec.eval_expr
+  BinInt.Z.leb BinInt.Z.geb BinInt.Z.eqb BinInt.Z.ltb BinInt.Z.gtb BinInt.Z.sub
+  SortKernels.merge SortKernels.merge_keep SortKernels.merge_keep_nullable SortKernels.append_limit
+  SortKernels.final_slice SortKernels.combined_limit SortKernels.partition SortKernels.subpartition
+  SortKernels.merge_partitioned SortKernels.heap_replace
+  MergeKernels.merge_deduplicate MergeKernels.merge_deduplicate_partitioned MergeKernels.merge_drop
+  MergeKernels.merge_aggregate
+  EncodedCmp.encode_int EncodedCmp.encode_int_wrapping EncodedCmp.cmp_enc EncodedCmp.inverse_dict_lookup.
